@@ -72,6 +72,10 @@ Definition bare_ok (o : binop) (s : shape) (sd : side) : bool :=
       | SUnary => leb_opt notp (lv o1)
       | SBetweenLo | SBetweenHi => leb_opt (succ_opt (lv BBetween)) (lv o1)
       end
+  | ShAsEnum =>
+      (* a cast to an enum type is written CAST(.. AS ..) on Postgres only; MySQL and SQLite write the inner
+         expression as it is, which may be any operator expression: it may never stand bare there *)
+      match b with Postgres => true | _ => false end
   | _ => true    (* atoms: columns, values, function calls, tuples, sub-queries, CASE ... *)
   end.
 
